@@ -30,7 +30,8 @@ ASSUMPTIONS = ["pvm/ref/ofmatch.py states OpenFlow 1.0 matching correctly",
                "not demanded; ARP opcodes > 255 not generated"]
 REQUIRED = ["single_cases", "single_match", "single_nomatch", "tables",
             "table_hits", "table_misses", "exact_entries_hit", "vlan_frames",
-            "llc_frames", "arp_frames", "frag_frames", "prefix_matches"]
+            "llc_frames", "arp_frames", "frag_frames", "prefix_matches",
+            "sibling_frames_matched"]
 TIMEOUT = {"quick": 900, "thorough": 7200}
 
 NPORTS = 40
@@ -159,6 +160,7 @@ def run_single (case, rep):
   got = len(out) > 0
   rep.count("single_cases")
   rep.count("single_match" if expect else "single_nomatch")
+  if case.get("sibling") and expect: rep.count("sibling_frames_matched")
   if expect:
     for fld, sh in (("nw_src", OM.FW_NW_SRC_SHIFT), ("nw_dst", OM.FW_NW_DST_SHIFT)):
       b = OM.nw_bits(m["wildcards"], sh)
@@ -299,12 +301,25 @@ def do_case (case, rep):
            nontrivial=bool(nt))
 
 
+SIBLINGS = ["tcp", "udp", "icmp", "ipother", "frag_later", "frag_first", "arp_req",
+            "icmp_quote", "gre_ip", "tcp_opts", "other"]
+
+
 def gen_single (rng, n):
   for _ in range(n):
-    raw, desc = framegen.gen_frame(rng)
+    fs = rng.getrandbits(48)
+    raw, desc = framegen.gen_frame(random.Random(fs))
     in_port = rng.choice(IN_PORTS)
     f = OM.extract(raw, in_port)
     m = derive_match(rng, f)
+    if rng.random() < 0.25:
+      # the match comes from one frame, the probe is a *sibling*: the same
+      # hosts, tag and type of service carrying something else (so a field
+      # the match wildcards differs in the frame while the kept ones agree)
+      raw2, desc2 = framegen.gen_frame(random.Random(fs), rng.choice(SIBLINGS))
+      yield dict(kind="single", match=m, frame=raw2, in_port=in_port, desc=desc2,
+                 sibling=True)
+      continue
     yield dict(kind="single", match=m, frame=raw, in_port=in_port, desc=desc)
 
 
@@ -322,8 +337,26 @@ def gen_table (rng, n, maxn):
       if rng.random() < 0.15 and not (m["wildcards"] & OM.FW_ALL & ~(
           OM.FW_NW_SRC_MASK | OM.FW_NW_DST_MASK)):
         m["wildcards"] = 0
+      near = False
+      if rng.random() < 0.12:
+        # all but exact: one single wildcard bit set (still a wildcarded
+        # entry: its priority counts, it does not outrank anything)
+        m = derive_match(rng, f, exactish=True)
+        m["wildcards"] = rng.choice([OM.FW_IN_PORT, OM.FW_DL_VLAN, OM.FW_DL_SRC,
+                                     OM.FW_DL_DST, OM.FW_NW_PROTO, OM.FW_TP_SRC,
+                                     OM.FW_TP_DST, OM.FW_DL_VLAN_PCP, OM.FW_NW_TOS,
+                                     1 << OM.FW_NW_SRC_SHIFT, 1 << OM.FW_NW_DST_SHIFT])
+        near = True
       c = OM.canon(m)
       pr = rng.choice([0, 1, 1, 2, 100, 0x8000, 0xffff])
+      if near:
+        pr = rng.choice([0, 1, 100])
+        # ... and a broader entry of higher priority for the same frame
+        m2 = derive_match(rng, f, exactish=True)
+        m2["wildcards"] = OM.FW_ALL & ~OM.FW_DL_TYPE & ~OM.FW_IN_PORT
+        if not any(OM.canon(m2) == c2 and 0x9000 == p2 for c2, p2 in seen):
+          seen.append((OM.canon(m2), 0x9000))
+          entries.append(dict(match=m2, priority=0x9000))
       if any(c == c2 and pr == p2 for c2, p2 in seen): continue
       seen.append((c, pr))
       entries.append(dict(match=m, priority=pr))
